@@ -9,10 +9,10 @@
 set -u
 export GOFLAGS=-mod=mod GOPROXY=off GOSUMDB=off GOTOOLCHAIN=local
 M="$1"; NAME="$2"; PROP="$3"; KIND="$4"
-V=/verif
+V=/verif; SRC="${SEED_SRC:-/repo}"
 A=$(mktemp -d /tmp/seedA.XXXXXX); B=$(mktemp -d /tmp/seedB.XXXXXX)
 trap 'rm -rf "$A" "$B"' EXIT
-rsync -a --exclude .git /repo/ "$A"/; rsync -a --exclude .git /repo/ "$B"/
+rsync -a --exclude .git "$SRC"/ "$A"/; rsync -a --exclude .git "$SRC"/ "$B"/
 ( cd "$B" && patch -p1 --no-backup-if-mismatch < "$M/patch.diff" ) > "$B/.patch.log" 2>&1 || { cat "$B/.patch.log"; echo "SEED-FAIL patch does not apply"; exit 1; }
 ( cd "$B" && go build ./... 2>&1 | grep -v carto | head ) 
 ( cd "$B" && go test -vet=off -count=1 $(go list ./... | grep -v /carto) ) > "$B/.suite.log" 2>&1
